@@ -10,6 +10,7 @@ CONSTANTS
   MaxAtt = 2
   MaxCrash = 1
   MaxFail = 0
+  EarlyChunks = FALSE
   Survive = TRUE
 VIEW View
 INVARIANTS TypeOK BeliefSound AtMostOnce ExactlyOnceAtEnd FailureFailsRun LockHeld
